@@ -70,11 +70,49 @@ func (w *World) collFieldOfValue(v ssa.Value) string {
 				}
 			}
 			return ""
+		case *ssa.Parameter:
+			// a collection handed to a helper (e.g. a generic collector instantiated for one value type): the
+			// collection every caller passes, if they all pass the same one
+			fn := x.Parent()
+			if fn == nil || collParamBusy[x] {
+				return ""
+			}
+			idx := -1
+			for i, p := range fn.Params {
+				if p == x {
+					idx = i
+				}
+			}
+			if idx < 0 {
+				return ""
+			}
+			collParamBusy[x] = true
+			defer delete(collParamBusy, x)
+			name := ""
+			for _, cs := range w.callSitesOf(fn) {
+				cc := cs.Common()
+				var args []ssa.Value
+				if cc.IsInvoke() {
+					args = append(args, cc.Value)
+				}
+				args = append(args, cc.Args...)
+				if idx >= len(args) {
+					return ""
+				}
+				c := w.collFieldOfValue(args[idx])
+				if c == "" || (name != "" && c != name) {
+					return ""
+				}
+				name = c
+			}
+			return name
 		}
 		break
 	}
 	return ""
 }
+
+var collParamBusy = map[*ssa.Parameter]bool{}
 
 // EffectOf classifies one instruction.
 func (w *World) EffectOf(in ssa.Instruction) *Effect {
